@@ -4,6 +4,12 @@ import json, os
 V = os.path.dirname(os.path.dirname(os.path.abspath(__file__)))
 
 CLAIMED = {
+ "C20": {
+  "text": "The extractors are a three-step TLA+ pipeline (framework extractor -> deserr::deserialize -> respond) whose outcomes of the first two steps are environment; TLC checks the composition law against the independently worded clauses of the property and yields the request classes. The harness hh sends concrete requests of every class (bodies valid / ill-typed at depth 0,1,2 / malformed / empty / oversized; 7 content types; 5 actix JsonConfig variants as app data; query strings; JsonError and a user error type rendering 422) through the deserr extractor and through the framework's own Json<Value> / Query<Value> extractor followed by deserr::deserialize on identically built requests; TLC validates every line against the law (same value; framework rejections unchanged; deserr failures carry exactly E's rendering, for JsonError 400 with the message as body).",
+  "note": "actix-web and axum are trusted as frameworks; in-process requests (TestRequest / http::Request), no sockets. QueryParamError has no HTTP rendering in deserr, so the query extractor is exercised with JsonError and a user error type.",
+  "technique": "TLA+ pipeline model checked by TLC; differential conformance harness; impl->spec trace validation",
+  "design_ref": "DESIGN.md section 5 (C20)",
+ },
  "C01": {
   "text": "Guard at every return of the abstract machine: Ok only if no report was made since the frame was entered, Err only with exactly the bag of reports made since then (none dropped, none twice); Inv_C01 on the generative model over every obligation order x every Continue/Break sequence. Conformance: seeded type-directed payloads on 87 catalogue entries through both value sources under the keep-going script, every C^k B^w script, all scripts for few decisions, random scripts, built-in error types and permuted members; every canonical behaviour TLC finds on the small inputs is replayed; all traces validated by TLC (Trace_core).",
   "note": "Bounded: catalogue of 87 entries (hand-written); payload sizes <= 7/9 nodes for the exhaustive model, larger random payloads only through trace validation. First deviation wins per run. Trusted: TLC, Json module, std FromStr tables logged by the harness, the recording error type keeps what it is handed.",
